@@ -13,6 +13,7 @@ OBLIGATIONS = [
     "NanoVerif.C14.nudge_spec",
     "NanoVerif.C14.ppem_def",
     "NanoVerif.C14.placement_y",
+    "NanoVerif.C14.placement_x",
     "NanoVerif.C14.em_height_close",
     "NanoVerif.C14.too_big_rejected",
     "NanoVerif.C14.runs_concat",
@@ -120,6 +121,16 @@ def suite_unit(ctx, res, n):
                 res.add_cex("BitmapMetrics.create places the bitmap farther from the em box than rounding allows",
                             {"call": "BitmapMetrics.create", "args": o, "impl": r, "top_error": float(y - A), "bound": float(bound)},
                             {"site": "bitmap-placement", "args": stable_hash(o)})
+            # horizontal: a square bitmap is centred in the advance (in bitmap pixels: advance * R / H)
+            if int(o["w"]) == R:
+                adv = max(c["width"], H)
+                ideal_x = (F(adv * R, H) - R) / 2
+                x = int(r["metrics"][0])
+                bx = F(3, 4) + (1 if ideal_x > F(255, 2) else 0)
+                if abs(x - ideal_x) > bx and x in range(-128, 128):
+                    res.add_cex("BitmapMetrics.create does not centre a square bitmap in its advance",
+                                {"call": "BitmapMetrics.create", "args": o, "impl": r, "x_offset": x, "ideal": float(ideal_x)},
+                                {"site": "bitmap-centring", "args": stable_hash(o)})
             if pp != round(F(c["upem"] * R, H)):
                 res.add_cex("_ppem != round(upem * bitmap height / em height)", {"call": "_ppem", "args": o, "impl": r}, {"site": "ppem", "args": stable_hash(o)})
     if ops:
@@ -281,6 +292,11 @@ def check_bitmap_font(ctx, res, case, out):
             if abs(y - A) > bound or abs((y - h) - (A - L)) > bound:
                 res.add_cex("CBDT BearingY places the bitmap off the em box by more than rounding allows",
                             {"case": case, "i": i, "BearingY": y, "em_top_px": float(A)}, {"site": "cbdt-place", "case": case["id"], "i": i})
+            if w == h == R:
+                ideal_x = (F(adv * R, H) - R) / 2
+                if abs(m.BearingX - ideal_x) > F(3, 4) + (1 if ideal_x > F(255, 2) else 0):
+                    res.add_cex("CBDT BearingX does not centre the square bitmap in its advance",
+                                {"case": case, "i": i, "BearingX": m.BearingX, "ideal": float(ideal_x)}, {"site": "cbdt-centring", "case": case["id"], "i": i})
             adv_px = F(adv * want_ppem, cfg.upem)
             if abs(m.Advance - adv_px) > F(1, 2) + F(adv, 2 * cfg.upem) + F(R, 2 * H) * F(adv, cfg.upem) + F(1, 2):
                 res.add_cex("CBDT pixel advance does not match the scaled font advance", {"case": case, "i": i, "Advance": m.Advance, "scaled": float(adv_px)},
@@ -289,6 +305,11 @@ def check_bitmap_font(ctx, res, case, out):
                 res.add_cex("CBDT metrics width/height differ from the image", {"case": case, "i": i}, {"site": "cbdt-size", "case": case["id"], "i": i})
         else:
             oy = im.originOffsetY
+            if w == h == R:
+                ideal_x = (F(adv * R, H) - R) / 2
+                if abs(im.originOffsetX - ideal_x) > F(3, 4) + (1 if ideal_x > F(255, 2) else 0):
+                    res.add_cex("sbix originOffsetX does not centre the square bitmap in its advance",
+                                {"case": case, "i": i, "originOffsetX": im.originOffsetX, "ideal": float(ideal_x)}, {"site": "sbix-centring", "case": case["id"], "i": i})
             # bottom edge of the bitmap vs bottom of the em box (descender) in pixels
             if abs(oy - (A - L)) > F(3, 2) + abs(L - R):
                 res.add_cex("sbix originOffsetY places the bitmap off the em box", {"case": case, "i": i, "originOffsetY": oy, "em_bottom_px": float(A - L)},
